@@ -10,7 +10,7 @@ use crate::base::iana::Rtype;
 use crate::base::rdata::{
     ComposeRecordData, LongRecordData, ParseRecordData, RecordData,
 };
-use crate::base::scan::Scanner;
+use crate::base::scan::{Scanner, ScannerError};
 #[cfg(feature = "serde")]
 use crate::base::scan::Symbol;
 use crate::base::wire::{Composer, FormError, ParseError};
@@ -198,7 +198,14 @@ impl<Octs> Txt<Octs> {
     pub fn scan<S: Scanner<Octets = Octs>>(
         scanner: &mut S,
     ) -> Result<Self, S::Error> {
-        scanner.scan_charstr_entry().map(Txt)
+        fn len<S: Scanner>(octets: &S::Octets) -> usize {
+            octets.as_ref().len()
+        }
+        let octets = scanner.scan_charstr_entry()?;
+        if len::<S>(&octets) > usize::from(u16::MAX) {
+            return Err(S::Error::custom("TXT record data too long"));
+        }
+        Ok(Txt(octets))
     }
 }
 
